@@ -816,6 +816,7 @@ def replace_assignments(stm: AST) -> AST:
             and lit.atom.term.ast_type == ASTType.Variable
             and not has_interval(lit.atom.guards[0].term)
             and "_" not in [var.name for var in collect_ast(lit.atom, "Variable")]  # every _ is a different variable
+            and lit.atom.term not in collect_ast(lit.atom.guards[0].term, "Variable")  # X = X+1 is no assignment
         ):
             if (lit.sign == Sign.NoSign and lit.atom.guards[0].comparison == ComparisonOperator.Equal) or (
                 lit.sign == Sign.Negation and lit.atom.guards[0].comparison == ComparisonOperator.NotEqual
